@@ -150,6 +150,24 @@ def run_case(j, e, s):
         check(j, r <= TOL, "SE3*Plucker", feat, "transformed-points-off-line", dict(detail, residual=r), ("transform", "incidence", s))
         dw = float(np.max(np.abs(np.asarray(L.w, dtype=float) - Rw))) / max(float(np.max(np.abs(Rw))), 1e-300)
         check(j, dw <= TOL, "SE3*Plucker", feat, "wrong-direction", dict(detail, dw=dw), ("transform", "direction", s))
+    elif k == "near":
+        # nearly parallel pair (angle |e| / (2^kexp |w|) >= 1e-8, ten times the property's 1e-9): NOT parallel
+        if s != 1.0:
+            return
+        Pn, Qn, Rn = (np.array(c[x], dtype=float) for x in ("P", "Q", "R"))
+        w2 = (Pn - Qn) + np.array(c["e"], dtype=float) / 2.0 ** c["kexp"]        # exact in binary floating point
+        fk = "near-parallel;2^-%d" % c["kexp"]
+        L1 = guard("Plucker.PQ", lambda: Plucker.PQ(Pn, Qn), ("near", "PQ"))
+        L2 = guard("Plucker.PointDir", lambda: Plucker.PointDir(Rn, w2), ("near", "PointDir"))
+        if L1 is None or L2 is None:
+            return
+        for name, fn in {"isparallel": lambda: L1.isparallel(L2), "|": lambda: L1 | L2, "isparallel(swapped)": lambda: L2.isparallel(L1)}.items():
+            sn = "Plucker." + name.replace("|", "__or__")
+            r = guard(sn, fn, ("near", name, c["kexp"]))
+            if r is not None:
+                check(j, bool(r) is False, sn, fk, "answered-True", detail, ("near", name, c["kexp"]))
+        cp = guard("Plucker.commonperp", lambda: L1.commonperp(L2), ("near", "commonperp", c["kexp"]))
+        check(j, cp is not None, "Plucker.commonperp", fk, "returned-None", detail, ("near", "commonperp", c["kexp"]))
     elif k == "pair":
         L1 = Plucker.PQ(P3(c["L1"]["P"]), P3(c["L1"]["Q"]))
         L2 = Plucker(np.r_[np.array(c["L2"]["v"], dtype=float) * s * s, np.array(c["L2"]["w"], dtype=float) * s])
@@ -179,14 +197,15 @@ def run_case(j, e, s):
         preds = {"isparallel": (lambda: L1.isparallel(L2), a["parallel"]), "|": (lambda: L1 | L2, a["parallel"]),
                  "^": (lambda: L1 ^ L2, a["meets"]), "==": (lambda: L1 == L2, a["same"]), "!=": (lambda: L1 != L2, not a["same"])}
         for name, (fn, expv) in preds.items():
-            r = guard("Plucker." + name, fn, ("pred", name, kind))
+            sn = "Plucker." + {"|": "__or__", "^": "__xor__"}.get(name, name)
+            r = guard(sn, fn, ("pred", name, kind))
             if r is None:
                 continue
             clear = (name in ("isparallel", "|") and (exact or not expv)) or \
                     (name == "^" and (exact or (not expv and (a["parallel"] or ed >= 0.1 * s)))) or \
                     (name in ("==", "!=") and (exact or kind in ("general", "intersecting")))
             if clear:
-                check(j, bool(r) == bool(expv), "Plucker." + name, feat + ";" + kind, "answered-%s" % bool(r), detail, ("pred", name, kind, "judged"))
+                check(j, bool(r) == bool(expv), sn, feat + ";" + kind, "answered-%s" % bool(r), detail, ("pred", name, kind, "judged"))
             else:
                 j.skip("predicate with absolute eps threshold on inexact data: explored only")
                 j.count("pred_%s_%s_%s" % (name, kind, "agrees" if bool(r) == bool(expv) else "differs"))
